@@ -43,6 +43,8 @@ def _a(fn, secs, bounds, tier="quick"):
 
 OBLIGATIONS += [
     _a("para_one", 10, "Paragraph(s), len <= 3 over {a, space, tab, LF}"),
+    _a("span_one", 10, "Span(s), len <= 3 over {a, space, tab, LF}"),
+    _a("header_one", 10, "Header(1, s), len <= 3 over {a, space, tab, LF}"),
     _a("para_nbsp", 15, "Paragraph(s), len <= 3 over {a, space, NO-BREAK SPACE}"),
     _a("para_two_appends", 125, "Paragraph(s1) then append_plain_text(s2), len <= 2 each"),
     _a("header_two_appends", 145, "Header(1, s1) then append_plain_text(s2), len <= 2 each"),
